@@ -64,14 +64,135 @@ pub fn check(case: &Case, info: &mut CaseInfo) -> Result<(), Fail> {
     with_world("c05-", |root| run_case(case, info, root))
 }
 
-pub fn run(ctx: &Ctx, rep: &mut Report) {
-    let (n, ops) = match ctx.tier {
-        Tier::Quick => (800, 22),
-        Tier::Thorough => (20_000, 50),
-    };
-    run_prop(ctx, rep, "needs", case_strategy(ops), n, 200, check);
+// ------------------------------------------------------------------------------------------------
+// racing tier: a commit on the server interleaves with an open sync session (harness-owned schedule)
+
+#[derive(Debug, Clone, Serialize, Deserialize)]
+pub struct RaceCase {
+    pub nodes: u8,
+    pub history: Vec<Op>,
+    /// (server, origin, from, pause_after, picks delivered to the server mid-session)
+    pub sessions: Vec<(u8, u8, u8, u8, Vec<u16>)>,
 }
 
-pub fn replay(_sub: &str, case: &serde_json::Value) -> Result<CaseInfo, Fail> {
-    replay_case::<Case, _>(case, check)
+pub fn race_strategy(max_ops: usize) -> impl Strategy<Value = RaceCase> {
+    (
+        2u8..=3,
+        proptest::collection::vec(prop_oneof![5 => op_strategy(10, 4, 0, 1, 1, 1), 1 => op_strategy(1, 1, 1, 1, 1, 1)], 8..=max_ops),
+        proptest::collection::vec((0u8..3, 0u8..3, any::<u8>(), 1u8..4, proptest::collection::vec(any::<u16>(), 1..6)), 3..10),
+    )
+        .prop_map(|(nodes, history, sessions)| RaceCase { nodes, history, sessions })
+}
+
+async fn run_race(case: &RaceCase, info: &mut CaseInfo, root: std::path::PathBuf) -> Result<(), Fail> {
+    let mut w = World::new(case.nodes as usize, &root).await?;
+    for op in &case.history {
+        w.step(op, info).await?;
+    }
+    let n = w.n();
+    for (server, origin, from, pause_after, picks) in &case.sessions {
+        let (server, origin) = (*server as usize % n, *origin as usize % n);
+        // a wide Full need (several answers, so that the session is still open when the commit happens)
+        let Some(need) = w.need_from_spec(server, origin, &NeedSpec::Full { from: *from, len: 5 }) else {
+            info.skipped_ops += 1;
+            continue;
+        };
+        let ids: Vec<usize> = if w.pool.is_empty() { vec![] } else { picks.iter().map(|p| crate::common::idx(*p, w.pool.len())).collect() };
+        w.check_serve_racing(server, origin, need.clone(), *pause_after as usize, &ids, info).await.map_err(|mut f| {
+            f.msg = format!("server {server} asked {need:?} about node {origin}: {}", f.msg);
+            f
+        })?;
+    }
+    info.total_ops += case.sessions.len() as u64;
+    Ok(())
+}
+
+/// directed racing scenario: the origin wrote n versions, the server (a relay) holds all but some of
+/// them (optionally a partial chunk of a missing one); while it answers Full{1..=n} and is blocked on
+/// the client (answer channel of capacity 1, `pause_after` answers read), the missing versions arrive
+/// and commit; then the client drains the rest
+#[derive(Debug, Clone, Serialize, Deserialize)]
+pub struct GapRace {
+    pub txs: Vec<Vec<crate::sim::Stmt>>,
+    /// bit i set = version i+1 is withheld from the server before the session
+    pub withheld: u16,
+    /// give the server a partial chunk (seq 0..=0) of the first withheld version beforehand
+    pub partial_first: bool,
+    pub pause_after: u8,
+}
+
+pub fn gap_race_strategy() -> impl Strategy<Value = GapRace> {
+    (proptest::collection::vec(proptest::collection::vec(crate::c07::stmt_strategy(), 1..4), 4..9), 1u16..255, any::<bool>(), 1u8..4)
+        .prop_map(|(txs, withheld, partial_first, pause_after)| GapRace { txs, withheld, partial_first, pause_after })
+}
+
+async fn run_gap_race(case: &GapRace, info: &mut CaseInfo, root: std::path::PathBuf) -> Result<(), Fail> {
+    let mut w = World::new(2, &root).await?;
+    let mut version_ids: Vec<(u64, Vec<usize>)> = vec![];
+    for stmts in &case.txs {
+        let before = w.pool.len();
+        if let Some(v) = w.tx(0, stmts).await? {
+            version_ids.push((v, (before..w.pool.len()).collect()));
+        }
+    }
+    if version_ids.len() < 3 {
+        info.skipped_ops += 1;
+        return Ok(());
+    }
+    let n = version_ids.len() as u64;
+    let mut withheld: Vec<usize> = vec![];
+    let mut eff = crate::world::Effects::default();
+    for (i, (_, ids)) in version_ids.iter().enumerate() {
+        // never withhold the newest version: the need must stay within the advertised head
+        if case.withheld & (1 << i) != 0 && (i as u64) < n - 1 {
+            withheld.extend(ids.iter().copied());
+        } else {
+            w.deliver_msgs(1, ids, false, &mut eff).await?;
+        }
+    }
+    if withheld.is_empty() {
+        info.skipped_ops += 1;
+        return Ok(());
+    }
+    if case.partial_first {
+        let first_v = version_ids.iter().find(|(_, ids)| ids.iter().any(|i| withheld.contains(i))).map(|x| x.0).unwrap();
+        let a = w.actor(0);
+        let ids = w
+            .serve(0, vec![(a, vec![klukai_types::sync::SyncNeedV1::Partial { version: klukai_types::base::CrsqlDbVersion(first_v), seqs: vec![klukai_types::base::CrsqlSeq(0)..=klukai_types::base::CrsqlSeq(0)] }])])
+            .await?;
+        w.deliver_msgs(1, &ids, false, &mut eff).await?;
+        info.class("withheld-version-partially-buffered");
+    }
+    let need = klukai_types::sync::SyncNeedV1::Full { versions: klukai_types::base::CrsqlDbVersion(1)..=klukai_types::base::CrsqlDbVersion(n) };
+    w.check_serve_racing(1, 0, need, case.pause_after as usize, &withheld, info).await?;
+    info.total_ops += 1;
+    Ok(())
+}
+
+pub fn check_gap_race(case: &GapRace, info: &mut CaseInfo) -> Result<(), Fail> {
+    with_world("c05g-", |root| run_gap_race(case, info, root))
+}
+
+pub fn check_race(case: &RaceCase, info: &mut CaseInfo) -> Result<(), Fail> {
+    with_world("c05r-", |root| run_race(case, info, root))
+}
+
+pub fn run(ctx: &Ctx, rep: &mut Report) {
+    let (n, ops, n_race) = match ctx.tier {
+        Tier::Quick => (800, 22, 400),
+        Tier::Thorough => (20_000, 50, 10_000),
+    };
+    run_prop(ctx, rep, "needs", case_strategy(ops), n, 200, check);
+    run_prop(ctx, rep, "racing", race_strategy(ops), n_race, 200, check_race);
+    run_prop(ctx, rep, "gap-race", gap_race_strategy(), n_race, 200, check_gap_race);
+}
+
+pub fn replay(sub: &str, case: &serde_json::Value) -> Result<CaseInfo, Fail> {
+    if sub.starts_with("racing") {
+        replay_case::<RaceCase, _>(case, check_race)
+    } else if sub.starts_with("gap-race") {
+        replay_case::<GapRace, _>(case, check_gap_race)
+    } else {
+        replay_case::<Case, _>(case, check)
+    }
 }
